@@ -413,7 +413,7 @@ def run(tier, seed):
         "pre-call snapshot; evaluations = faulted parses; non-trivial = fault blocks in which at least one input "
         "was rejected")
     found = {}
-    deadline = time.time() + (250 if tier == "quick" else 3000)
+    deadline = time.time() + (900 if tier == "quick" else 6000)
     cs = cases(tier)
     k = seed % 7
     engine_b.run_cases(ID, cs[k:] + cs[:k], cov, found, deadline, level="faults/" + tier)
